@@ -129,6 +129,44 @@ class WalletProp(BaseProp):
                 except Exception:
                     ov = None
             return {"xpub": xpub, "ob": ov, "full": fv, "or": c_oracles(rec), "err": ov is None}
+        if k == "ParCli":
+            from props.c20 import run_main, build_argv
+            v = dict(case["v"], paranoia=True)
+            code, out, err = run_main(build_argv(v))
+            t = v.get("testnet", False)
+            from btc_hd_wallet.paper_wallet import PaperWallet
+            w = PaperWallet.from_mnemonic(v["secret"], v.get("password", ""), testnet=t)
+            secrets, publics = set(), set()
+
+            def harvest(data, pub):
+                for key, sec in data.items():
+                    if key in ("MASTER", "BIP85"):
+                        for x in sec.values():
+                            if isinstance(x, str) and x:
+                                secrets.add(x)
+                    else:
+                        if sec["account_extended_keys"].get("prv"):
+                            secrets.add(sec["account_extended_keys"]["prv"])
+                        if pub:
+                            publics.add(sec["account_extended_keys"]["pub"])
+                        for g in sec["groups"]:
+                            if g[-1]:
+                                secrets.add(g[-1])
+                            if pub:
+                                publics.add(g[1])
+            iv = v.get("interval")
+            harvest(w.generate(account=int(v.get("account") or 0), interval=(int(iv[0]), int(iv[1]))), True)
+            harvest(w.generate(), False)                      # what a fall-back to the defaults would print
+            return {"secrets": sorted(secrets), "publics": sorted(publics), "out": out, "code": code, "err": code != 0}
+        if k == "NodeKeys":
+            rec = Recorder()
+            with rec.installed():
+                try:
+                    w = build_wallet(case["w"])
+                    t = w.node_extended_keys(w.master.derive_path(list(case["path"])))
+                except Exception:
+                    t = None
+            return {"ob": t, "or": c_oracles(rec), "err": t is None}
         if k == "WatchPriv":
             from btc_hd_wallet.paper_wallet import PaperWallet
             rec = Recorder()
@@ -164,6 +202,10 @@ class WalletProp(BaseProp):
             return "(Was %s %s %s)" % (obs["or"], c_wspec(case["w"]), rt(obs["ob"]))
         if k == "WasX":
             return "(WasX %s %s %s)" % (obs["or"], zs(obs["xprv"]), rt(obs["ob"]))
+        if k == "ParCli":
+            return "(ParCli [%s] [%s] %s)" % (";".join(zs(x) for x in obs["secrets"]), ";".join(zs(x) for x in obs["publics"]), zs(obs["out"]))
+        if k == "NodeKeys":
+            return "(NodeKeys %s %s %s %s)" % (obs["or"], c_wspec(case["w"]), c_path(case["path"]), rt(obs["ob"]))
         if k == "Watch":
             return "(Watch %s %s %s %s %s %s %s)" % (obs["or"], c_wspec(case["w"]), c_path(case["export"]), zs(obs["xpub"]), c_path(case["sub"]),
                                                      rt(obs["ob"]), rt(obs["full"]))
